@@ -41,6 +41,7 @@ const (
 	skErrReturn        // a return directly under an err condition (guards = "cond | source of err")
 	skAssign           // x[i] = v   /   x = append(x, …)
 	skFunc             // position of a function literal
+	skDef              // assignment to one of the local variables named in skWalker.defs (FULL guard chain, err conditions included)
 )
 
 type skEntry struct {
@@ -56,6 +57,7 @@ type skGuard struct {
 
 type skWalker struct {
 	interesting func(string) bool
+	defs        func(string) bool // local variables whose definitions / assignments are recorded (nil = none)
 	guards      []skGuard
 	ifConds     []string
 	lastErr     string // what was last assigned to err (callee of the call, else the rhs text)
@@ -77,6 +79,16 @@ func (w *skWalker) chain() string {
 		if !g.hidden {
 			gs = append(gs, g.text)
 		}
+	}
+	return strings.Join(gs, " && ")
+}
+
+// chainAll: the guard chain with the err conditions left in (used for `def` entries: whether a
+// verdict variable is cleared under an err condition matters).
+func (w *skWalker) chainAll() string {
+	var gs []string
+	for _, g := range w.guards {
+		gs = append(gs, g.text)
 	}
 	return strings.Join(gs, " && ")
 }
@@ -209,6 +221,14 @@ func (w *skWalker) stmt(s ast.Stmt) {
 		if note {
 			w.emit(skAssign, "assign "+src(x), w.chain())
 		}
+		if w.defs != nil {
+			for _, l := range x.Lhs {
+				if id, ok := l.(*ast.Ident); ok && w.defs(id.Name) {
+					w.emit(skDef, "def "+src(x), w.chainAll())
+					break
+				}
+			}
+		}
 	case *ast.ExprStmt:
 		w.expr(x.X)
 	case *ast.DeferStmt:
@@ -284,7 +304,11 @@ func (w *skWalker) expr(e ast.Expr) {
 }
 
 func walkSkeleton(fd *ast.FuncDecl, interesting func(string) bool) []skEntry {
-	w := &skWalker{interesting: interesting}
+	return walkSkeletonDefs(fd, interesting, nil)
+}
+
+func walkSkeletonDefs(fd *ast.FuncDecl, interesting, defs func(string) bool) []skEntry {
+	w := &skWalker{interesting: interesting, defs: defs}
 	if fd != nil && fd.Body != nil {
 		w.stmts(fd.Body.List)
 	}
@@ -549,9 +573,14 @@ func genFingerOrder() {
 		{"StatusChecker.IsUpToDate", "statusIsUpToDate"},
 	} {
 		var rows [][2]string
-		for _, e := range walkSkeleton(fp.funcDecl(f[0]), interesting) {
+		// the verdict variables of TimestampChecker.IsUpToDate: where they are defined / cleared
+		var defs func(string) bool
+		if f[0] == "TimestampChecker.IsUpToDate" {
+			defs = setOf("upToDate", "generatesExist", "shouldUpdate")
+		}
+		for _, e := range walkSkeletonDefs(fp.funcDecl(f[0]), interesting, defs) {
 			switch e.kind {
-			case skCall, skReturn, skAssign, skFunc:
+			case skCall, skReturn, skAssign, skFunc, skDef:
 				rows = append(rows, [2]string{e.what, e.guards})
 			case skErrReturn:
 				if !errGuardRe.MatchString(strings.TrimPrefix(e.what, "return")) {
